@@ -1,6 +1,7 @@
 (* C13 -- formatting is idempotent. *)
 From Coq Require Import List NArith Bool.
 Import ListNotations.
+From Mos Require Import model.Nom model.Parser spec.LayoutEquiv proofs.C08Sweep model.FormatParse proofs.FormatSweepDefs proofs.FormatSweep.
 From Mos Require Import model.Format Gen.FmtRules model.FormatTokens spec.FormatSpec proofs.FormatProofs
   proofs.FormatIdemGeneral proofs.FormatIdem.
 
@@ -29,15 +30,30 @@ Theorem C13_join_fixed_guard_needed_refuted : exists cs o,
 Proof. exact join_fixed_needs_stable. Qed.
 Print Assumptions C13_join_fixed_guard_needed_refuted.
 
-(* F-C13a, on the model of join_chunks: a comment that spans two lines is laid out with its continuation line moved to
-   the code column; a second run starts from that text (c2 = the comment as it stands in the output of the first run)
-   and moves the continuation line again -- the output of the formatter is not a fixed point. *)
-Theorem C13_multiline_comment_refuted : exists o c1 c2 rest,
+(* The full statement, format o (parse (format o (parse s))) = format o (parse s), on the whole Gallina pipeline
+   (model/Parser.v -> model/FormatParse.v -> model/FormatTokens.v -> model/Format.v).
+   PARTIAL: proved by exhaustive kernel evaluation over the layout domain of C08 (126 statement templates, 7458 texts incl.
+   multi-line and nested block comments, line comments and CRLF in every trivia slot) x 3 option sets -- see
+   C12_reparse_bounded_partial -- not for arbitrary programs.  No guard: since 3aa1103 multi-line comments are fixed
+   points too.  Missing for the unbounded statement: the print-then-parse theorem of the parser (unbounded C08 layout
+   theorem), which would turn C13_join_fixed (all chunk lists) plus the layout independence of format_tokens into it. *)
+Theorem C13_idempotent_bounded_partial : forall o tpl s,
+  In o sweep_options3 -> In tpl templates -> In s (canon tpl :: variants tpl) ->
+  exists f, format_source o s = Some f /\ format_source o f = Some f.
+Proof. exact idempotent_bounded. Qed.
+Print Assumptions C13_idempotent_bounded_partial.
+
+(* The repaired F-C13a (3aa1103) on the model of join_chunks: a comment that spans two lines is laid out with its
+   continuation line at the code column (c2 = the comment as it stands in the output); laying out c2 again gives the
+   same text -- the blanks a continuation line starts with are dropped before it is placed.  (Before the repair the
+   second layout differed: the line drifted to the right on every run.) *)
+Theorem C13_multiline_comment_fixed : exists o c1 c2 rest,
   let cs c := [mkChunk (Some Comment) 0 c; mkChunk None 0 [NL]; mkChunk None 0 rest] in
+  contains_nl c1 = true /\ c2 <> c1 /\
   join_chunks (cs c1) o = spaces 20 ++ c2 ++ NL :: spaces 20 ++ rest /\
-  join_chunks (cs c2) o <> join_chunks (cs c1) o.
-Proof. exact multiline_comment_refuted. Qed.
-Print Assumptions C13_multiline_comment_refuted.
+  join_chunks (cs c2) o = join_chunks (cs c1) o.
+Proof. exact multiline_comment_fixed. Qed.
+Print Assumptions C13_multiline_comment_fixed.
 
 (* non-vacuity of C13_join_fixed: label + code + comment + newline, re-chunked and joined again *)
 Example C13_join_fixed_example :
